@@ -1,5 +1,6 @@
 import GoLucene.Proofs.Subst
 import GoLucene.Proofs.SubstCount
+import GoLucene.Proofs.ParamIndep
 /-
   C04 — parameterized SQL agrees with inline SQL; all values travel as parameters.
 
@@ -30,5 +31,17 @@ theorem substitution_without_ranges (e : Expr) (hw : wfTree e = true) (hv : vali
     (sqlI sqlP : Bytes) (ps : List Prim) (hI : render pgFns e = .ok sqlI) (hP : renderParam pgFns e = .ok (sqlP, ps)) :
     ∃ tm : Tmpl, sqlP = fillQ tm ∧ holes tm = ps.length ∧ fillV tm (ps.map litText) = some sqlI :=
   subst_no_range e hw hv hn sqlI sqlP ps hI hP
+
+/-- VALUE INDEPENDENCE: two well-formed validated trees of the same shape (same operators, columns, inclusivity, open
+    range ends, list lengths; at each value leaf a value of the same kind — strings / numbers; for LIKE the same
+    /slash/ class of the pattern) give the IDENTICAL parameterized SQL text and equally many parameters.
+    `ParamIndep.need_openEnd` shows the open-end clause of the shape is necessary (finding K-range-quoted-star seen from
+    this side: `a:["*" TO 5]` vs `a:["b" TO 5]`). -/
+theorem parameterized_sql_is_value_independent (e1 e2 : Expr) (hw1 : wfTree e1 = true) (hv1 : validateExpr e1 = true)
+    (hw2 : wfTree e2 = true) (hv2 : validateExpr e2 = true) (h : ParamIndep.sameShape e1 e2 = true)
+    (sql1 : Bytes) (ps1 : List Prim) (sql2 : Bytes) (ps2 : List Prim)
+    (h1 : renderParam pgFns e1 = .ok (sql1, ps1)) (h2 : renderParam pgFns e2 = .ok (sql2, ps2)) :
+    sql1 = sql2 ∧ ps1.length = ps2.length :=
+  ParamIndep.param_sql_value_independent e1 e2 hw1 hv1 hw2 hv2 h sql1 ps1 sql2 ps2 h1 h2
 
 end GoLucene.C04
